@@ -51,7 +51,8 @@ CHECKS["C06"] = {
         harness("c06_junos_local_segmentation", functions=["transport::junos_local::Receiver::recv", "bytes::BytesMut", "memchr::memmem::Finder::find (model)"],
                 bounds="as c06_tls_segmentation", loops=FRAMING_LOOPS, stubbing=True),
         harness("c06_ssh_segmentation", functions=["transport::ssh::Ssh::connect (pump task)", "transport::ssh::Receiver::recv", "tokio::select!/mpsc (model)"],
-                bounds="2 messages, payload<=2 bytes, <=4 ChannelMsg::Data packets, one activation of the pump task", loops=SSH_LOOPS, stubbing=True),
+                bounds="2 messages, payload<=2 bytes, <=4 ChannelMsg::Data packets, one activation of the pump task", loops=SSH_LOOPS, stubbing=True,
+                tiers=["thorough"], timeout={"thorough": 5400}, mem_gb=30),
     ],
 }
 
@@ -64,7 +65,8 @@ CHECKS["C07"] = {
                 bounds="strict prefix of one message then Eof/Abort, 1 poll, reads after close answered at most twice then Pending (overrun flag), 32-byte buffer", loops=FRAMING_LOOPS, stubbing=True),
         harness("c07_junos_local_disconnect", functions=["transport::junos_local::Receiver::recv"], bounds="as c07_tls_disconnect", loops=FRAMING_LOOPS, stubbing=True),
         harness("c07_ssh_disconnect", functions=["transport::ssh::Ssh::connect (pump task)", "transport::ssh::Receiver::recv"],
-                bounds="strict prefix of one message, then Eof+gone / Close+gone / gone; wait() answers None at most twice then Pending (overrun flag)", loops=SSH_LOOPS, stubbing=True),
+                bounds="strict prefix of one message, then Eof+gone / Close+gone / gone; wait() answers None at most twice then Pending (overrun flag)", loops=SSH_LOOPS, stubbing=True,
+                tiers=["thorough"], timeout={"thorough": 5400}, mem_gb=30),
     ],
 }
 
